@@ -145,6 +145,8 @@ type frame struct {
 	names []string
 	rangeInfo map[*ssa.Range][2]string
 	siteOrd map[string][]ssa.Instruction
+	aliasLocals map[string]string // recorded name the function no longer has -> current name of that variable
+	aliasParams map[string]int
 }
 
 type bstate struct {
@@ -548,6 +550,12 @@ func (f *FnCtx) newFrame(fn *ssa.Function, args, fvs []Val, top bool, depth int)
 		fr.vals[p] = args[i]
 		fr.params[p.Name()] = args[i]
 	}
+	f.e.bindMu.Lock()
+	fr.aliasLocals, fr.aliasParams = f.e.aliases(fn)
+	f.e.bindMu.Unlock()
+	for n, i := range fr.aliasParams {
+		fr.params[n] = args[i]
+	}
 	for i, fv := range fn.FreeVars {
 		fr.vals[fv] = fvs[i]
 	}
@@ -896,6 +904,13 @@ func (fr *frame) localEnvAt(h *ssa.BasicBlock, edgeFrom *ssa.BasicBlock, heap *H
 			}
 		}
 		env[name] = val
+	}
+	for old, cur := range fr.aliasLocals {
+		if v, ok := env[cur]; ok {
+			if _, have := env[old]; !have {
+				env[old] = v
+			}
+		}
 	}
 	return env
 }
